@@ -42,6 +42,11 @@ type Dir struct {
 	FlipAt   [][2]int64
 	Injected int64
 
+	// MarkWrites: remember at what (fake) time which octet of the stream was written, for oracles about when the system
+	// said something as opposed to when the peer got to read it
+	MarkWrites bool
+	Marks      []writeMark
+
 	// statistics
 	Reads, Writes int
 }
@@ -262,6 +267,9 @@ func (c *Conn) Write(p []byte) (int, error) {
 		if d.cutDone {
 			// written after the cut: swallowed by the dead link
 		} else {
+			if d.MarkWrites {
+				d.Marks = append(d.Marks, writeMark{off: d.Written, at: time.Now()})
+			}
 			d.Inflight = rawAppend(d.Inflight, p[n:n+room])
 		}
 		d.Written += int64(room)
@@ -377,4 +385,21 @@ func rawCopy(dst, src []byte) int {
 		dst[i] = src[i]
 	}
 	return n
+}
+
+type writeMark struct {
+	off int64
+	at  time.Time
+}
+
+// WrittenAt is the time at which the octet at offset off of the stream was written (zero if unknown).
+func (d *Dir) WrittenAt(off int64) time.Time {
+	var t time.Time
+	for _, m := range d.Marks {
+		if m.off > off {
+			break
+		}
+		t = m.at
+	}
+	return t
 }
